@@ -532,7 +532,7 @@ class Side:
 
 
 class Call:
-    __slots__ = ("side", "actor", "op", "arg", "t0", "s0", "t1", "s1", "out", "detail", "closed0", "task")
+    __slots__ = ("side", "actor", "op", "arg", "t0", "s0", "t1", "s1", "out", "detail", "closed0", "closed1", "task")
 
     def __init__(self, side, actor, op, arg, t0, s0, closed0, task):
         self.side, self.actor, self.op, self.arg = side, actor, op, arg
@@ -540,6 +540,7 @@ class Call:
         self.out = None  # "ret" | "exc" | "cancel"
         self.detail = None
         self.closed0 = closed0
+        self.closed1 = None  # ws.closed when the call ended
         self.task = task
 
 
@@ -603,6 +604,7 @@ async def do_op(side: Side, actor: int, op: str, arg):
         c.detail = (type(e).__name__, _aiohttp_frame(e), str(e)[:120], tuple(t.__name__ for t in type(e).__mro__))
     finally:
         c.t1, c.s1 = loop.time(), loop.steps
+        c.closed1 = bool(ws.closed)
         if blocking:
             side.inflight -= 1
 
